@@ -201,7 +201,8 @@ Definition emit_checks (nl : netlist) (mode : rmode) (m : vmodule) : list bool :
                       && forallb (declared_wire nl) (nargs n)
                       && match nop n with
                          | OpMemWr mm => match find_mem (mems nl) mm with
-                                         | Some x => width_of nl (arg n 1) <=? mdataw x
+                                         | Some x => (width_of nl (arg n 1) <=? mdataw x)
+                                                     && match mrom x with None => true | Some _ => false end
                                          | None => false
                                          end
                          | OpMemRd mm => declared_wire nl (ndest n)
